@@ -43,6 +43,29 @@ fn has_chance(tree: &T) -> bool {
     found
 }
 
+/// the part of a game that one player decides alone: every decision node of the other player is
+/// replaced by the subtree of its first action; names get a prefix so that two such parts can
+/// stand side by side
+fn solo(t: &T, keep: usize, prefix: &str) -> T {
+    match t {
+        T::Term(x) => T::Term(*x),
+        T::Chance(l, outs) => T::Chance(
+            l.as_ref().map(|l| format!("{}{}", prefix, l)),
+            outs.iter().map(|(w, c)| (*w, solo(c, keep, prefix))).collect(),
+        ),
+        T::Player(p, name, acts) => {
+            if *p == keep {
+                T::Player(*p, format!("{}{}", prefix, name), acts.iter().map(|(a, c)| (a.clone(), solo(c, keep, prefix))).collect())
+            } else {
+                match acts.first() {
+                    Some((_, c)) => solo(c, keep, prefix),
+                    None => T::Term(0.0),
+                }
+            }
+        }
+    }
+}
+
 pub fn decode(bytes: &[u8]) -> Case {
     let (mut s, mut gs) = crate::stream::split(bytes, 300);
     let mut cfg = GenCfg::small();
@@ -52,7 +75,18 @@ pub fn decode(bytes: &[u8]) -> Case {
         cfg.max_nodes = 100;
         cfg.max_depth = 7;
     }
-    let g = crate::gen::gen_game(&mut gs, &cfg);
+    // one case in six is a decoupled game: a chance move decides which of the two players gets to
+    // play a game of their own. Pruning one player's part leaves the other player's regret where it
+    // was, so the two regrets the clip rule compares are often exactly equal
+    let decoupled = s.chance(43);
+    let mut g = crate::gen::gen_game(&mut gs, &cfg);
+    if decoupled {
+        let g2 = crate::gen::gen_game(&mut gs, &cfg);
+        let (w1, w2) = [(1.0, 1.0), (1.0, 3.0), (3.0, 1.0), (1.0, 7.0), (5.0, 3.0)][s.below(5)];
+        let first = s.below(2);
+        g.tree = T::Chance(None, vec![(w1, solo(&g.tree, first, "a")), (w2, solo(&g2.tree, 1 - first, "b"))]);
+        g.family = "decoupled";
+    }
     let mut tree = g.tree;
     if s.chance(48) {
         cli::fancy_names(&mut s, &mut tree);
@@ -180,6 +214,9 @@ pub fn check(bytes: &[u8], _ctx: &Ctx) -> Verdict {
         pruned: Profile,
         r_un: f64,
         r_pr: f64,
+        /// the same two regrets as the library computes them (what the program compares)
+        lib_r_un: f64,
+        lib_r_pr: f64,
     }
     let d = oracle::payoff_range(&case.built.tree);
     let margin = 1e-9 * d.max(1.0);
@@ -197,7 +234,14 @@ pub fn check(bytes: &[u8], _ctx: &Ctx) -> Verdict {
         let pruned = named_valid(info, &glue::read_named(&pruned_s)).map_err(|m| Verdict::fail("C16/pruned-profile-invalid", m))?;
         let reg = |p: &Profile| oracle::evaluate(&case.built.tree, info, p, 100_000).map(|e| f64::max(e.regret[0], e.regret[1]));
         match (reg(&unpruned), reg(&pruned)) {
-            (Ok(r_un), Ok(r_pr)) => Ok(Answer { unpruned, pruned, r_un, r_pr }),
+            (Ok(r_un), Ok(r_pr)) => Ok(Answer {
+                unpruned,
+                pruned,
+                r_un,
+                r_pr,
+                lib_r_un: strats.get_info().regret(),
+                lib_r_pr: pruned_s.get_info().regret(),
+            }),
             _ => Err(Verdict::fail("harness/oracles-disagree", "while evaluating the clip rule")),
         }
     };
@@ -264,6 +308,25 @@ pub fn check(bytes: &[u8], _ctx: &Ctx) -> Verdict {
         } else {
             vec![(pruned, "pruned"), (unpruned, "unpruned")]
         };
+        // inside the margin the independent evaluation cannot say which regret is lower; there
+        // the program's own comparison decides, and the harness can repeat it: with one thread
+        // its library call is the very computation the program runs. It is used only when the
+        // printed profile and the printed regret are bit-for-bit those of the harness (so the two
+        // builds demonstrably agree on this case) and the two candidates differ visibly
+        if accept.len() == 2 && case.parallel == 1 && !case.sampled_flag && ans.lib_r_un.is_finite() && ans.lib_r_pr.is_finite() && max_diff(unpruned, pruned).0 > 1e-6 {
+            let expect_pruned = ans.lib_r_pr < ans.lib_r_un;
+            let (want, other, lib_r, name) = if expect_pruned { (pruned, unpruned, ans.lib_r_un, "unpruned") } else { (unpruned, pruned, ans.lib_r_pr, "pruned") };
+            labels.push(if ans.lib_r_pr == ans.lib_r_un { "clip-exact-tie" } else { "clip-within-margin" });
+            if max_diff(other, &prof).0 == 0.0 && max_diff(want, &prof).0 > 1e-6 && fin.printed.regret.to_bits() == lib_r.to_bits() {
+                return Verdict::fail(
+                    if ans.lib_r_pr == ans.lib_r_un { "C16/clip-rule/tie" } else { "C16/clip-rule/within-margin" },
+                    format!(
+                        "route {}; args {:?}: the {} profile is printed although the regrets the program compares are unpruned {:e} and pruned {:e} (the pruned profile is to be printed exactly when its regret is strictly lower)",
+                        route, a, name, ans.lib_r_un, ans.lib_r_pr
+                    ),
+                );
+            }
+        }
         let mut ok = false;
         let mut why = String::new();
         for (cand, name) in accept.iter() {
@@ -358,7 +421,7 @@ pub fn prop() -> Prop {
         id: "C16",
         check,
         describe,
-        rule: "generated games with dyadic payoffs and probabilities (every derived number exact), each written as JSON and as Gambit (constant c, interior payoffs, shared outcomes) x -d x -t (incl. -t 0 with -r > 0 and vanilla) x -r x -c x -p (mostly 1) x 2-3 routes from 12 combinations of {.json,.efg,.txt,unknown extension} x {file, stdin} x {explicit --input-format, auto} x {stdout, -o}; -m full (and -m sampled on chance-free games, where it is deterministic); oracle: the harness builds the same game through its own IntoGameNode (actions in name order), calls Game::solve(Full, ..) with the parameters the option values denote, applies truncate, and requires the printed strategies to equal that profile within 1e-9 (pruned exactly when an independent evaluation says its regret is lower by more than 1e-9 D; either when equal); all routes must print the same strategies. Non-trivial = the five presets give pairwise different library results on this game and budget (a mis-wired option would be visible); distinct by (file, arguments, routes).",
+        rule: "generated games with dyadic payoffs and probabilities (every derived number exact), each written as JSON and as Gambit (constant c, interior payoffs, shared outcomes) x -d x -t (incl. -t 0 with -r > 0 and vanilla) x -r x -c x -p (mostly 1) x 2-3 routes from 12 combinations of {.json,.efg,.txt,unknown extension} x {file, stdin} x {explicit --input-format, auto} x {stdout, -o}; -m full (and -m sampled on chance-free games, where it is deterministic); oracle: the harness builds the same game through its own IntoGameNode (actions in name order), calls Game::solve(Full, ..) with the parameters the option values denote, applies truncate, and requires the printed strategies to equal that profile within 1e-9 (pruned exactly when an independent evaluation says its regret is lower by more than 1e-9 D; inside that margin the library's own two regrets decide, exact ties included, whenever the printed profile and regret are bit-for-bit the harness's, and either profile is accepted otherwise); one case in six is a decoupled game (a chance move hands the game to one player or the other), where exact ties of the two regrets are common; all routes must print the same strategies. Non-trivial = the five presets give pairwise different library results on this game and budget (a mis-wired option would be visible); distinct by (file, arguments, routes).",
         max_len: 1000,
         cases_quick: 40_000,
         cases_thorough: 500_000,
